@@ -698,7 +698,7 @@ class Machine:
                     given = np.float32(v)
                 elif vt == "numpy.float64":
                     given = np.float64(v)
-                elif vt == "int":
+                elif vt == "int" and abs(v) >= 1000:  # lengths and speeds; an angle or a ratio would collapse to 0
                     given = int(v)
                 else:
                     given = float(v)
